@@ -10,22 +10,29 @@
  value is whatever the cell holds now).
  ***************************************************************************)
 EXTENDS Naturals, Sequences, FiniteSets, TLC, Json
-CONSTANTS Accessors, Shapes, ReuseKinds, MaxReuse, Aliasing   \* Aliasing: accessors that hand out buffer memory although Immutable is on
-VARIABLES immutable, shape, version, captured, reuses, phase
-vars == <<immutable, shape, version, captured, reuses, phase>>
+CONSTANTS Accessors, Shapes, ReuseKinds, MaxReuse, Aliasing,   \* Aliasing: accessors that hand out buffer memory although Immutable is on
+          Scratch         \* accessors that hand out memory of a pooled scratch buffer which is already back in its pool
+VARIABLES immutable, shape, version, captured, reuses, phase,
+          churned         \* the handler went on working after it took the values (Links, Attachment, String ... use pooled scratch buffers)
+vars == <<immutable, shape, version, captured, reuses, phase, churned>>
 Init == /\ immutable \in BOOLEAN /\ shape \in Shapes /\ version = 1 /\ captured = [a \in Accessors |-> 0] /\ reuses = <<>> /\ phase = "handler"
+        /\ churned = FALSE
 \* the handler reads every accessor: a copying accessor pins the current version, an aliasing one tracks the cell (0 = live view)
 Capture == /\ phase = "handler"
            /\ captured' = [a \in Accessors |-> IF immutable /\ a \notin Aliasing THEN version ELSE 0]
-           /\ phase' = "returned" /\ UNCHANGED <<immutable, shape, version, reuses>>
+           /\ phase' = "working" /\ UNCHANGED <<immutable, shape, version, reuses, churned>>
+\* still inside the handler: other helpers take, fill and return pooled scratch buffers; then the handler returns
+Churn == /\ phase = "working" /\ churned' = TRUE /\ phase' = "returned" /\ UNCHANGED <<immutable, shape, version, captured, reuses>>
 \* a later request recycles the context and the connection buffers
 Reuse(k) == /\ phase = "returned" /\ Len(reuses) < MaxReuse
-            /\ version' = version + 1 /\ reuses' = Append(reuses, k) /\ UNCHANGED <<immutable, shape, captured, phase>>
-Done == phase = "returned" /\ phase' = "checked" /\ UNCHANGED <<immutable, shape, version, captured, reuses>>
-Next == Capture \/ (\E k \in ReuseKinds : Reuse(k)) \/ Done
+            /\ version' = version + 1 /\ reuses' = Append(reuses, k) /\ UNCHANGED <<immutable, shape, captured, phase, churned>>
+Done == phase = "returned" /\ phase' = "checked" /\ UNCHANGED <<immutable, shape, version, captured, reuses, churned>>
+Next == Capture \/ Churn \/ (\E k \in ReuseKinds : Reuse(k)) \/ Done
 Spec == Init /\ [][Next]_vars
 Live(a) == IF captured[a] = 0 THEN version ELSE captured[a]
 \* what was captured under Immutable still reads as it did (version 1 is the capturing request)
-StaysValid == (immutable /\ phase # "handler") => \A a \in Accessors : Live(a) = 1
+StaysValid == (immutable /\ phase \notin {"handler", "working"}) => \A a \in Accessors : Live(a) = 1
+\* with or without the option: what the handler took is still what it reads when it returns
+StableInHandler == (phase = "returned" /\ reuses = <<>>) => \A a \in Accessors : ~(churned /\ a \in Scratch)
 Emit == phase = "checked" => PrintT(<<"CASE", ToJson([immutable |-> immutable, shape |-> shape, reuses |-> reuses])>>)
 =============================================================================
